@@ -66,7 +66,7 @@ def outcome_of(res, n, r, absent_pos=None):
     empty: what stands there now is what ran next"""
     if res.get("panic"):
         return None
-    flows = [f[4:] for f in (res.get("flows") or [])]
+    flows = [f[4:] for f in (res.get("flows") or []) if f.startswith("vcl_")]
     if absent_pos is not None:
         if absent_pos < len(flows):
             return ("go", flows[absent_pos])
@@ -83,7 +83,7 @@ def outcome_of(res, n, r, absent_pos=None):
 
 
 def position_of(res, n, r):
-    flows = [f[4:] for f in (res.get("flows") or [])]
+    flows = [f[4:] for f in (res.get("flows") or []) if f.startswith("vcl_")]
     rr = -1
     for i, sc in enumerate(flows):
         if sc == "recv":
